@@ -77,3 +77,14 @@ Proof.
   assert (D : nthN (x :: y :: t) 0 <> nthN (x :: y :: t) 1) by (unfold nthN; cbn [nth]; exact H).
   destruct i; try exact I. destruct o; try exact I; exact D.
 Qed.
+
+(* the executable field test is exactly fields_ok: the tie never excludes an encoding the theorems cover *)
+Lemma fields_okb_complete i : fields_ok i -> fields_okb i = true.
+Proof.
+  unfold fields_okb, fields_ok, regb, immb, reg_ok, imm16_ok. destruct i; intros H; try reflexivity; lia.
+Qed.
+
+Lemma branch_okb_complete a b : branch_ok a b -> branch_okb a b = true.
+Proof.
+  unfold branch_okb, branch_ok, off_okb, off_ok, regb, reg_ok. destruct b; intros H; try reflexivity; lia.
+Qed.
